@@ -267,6 +267,18 @@ func knownStaleReexportGraph() *ggraph {
 	return finish(g)
 }
 
+// seventh known finding (inherent to the format): an esm-format bundle cannot declare the names its
+// entry point takes from a CommonJS file through "export *"
+func knownEsmRuntimeStarGraph() *ggraph {
+	e, mid := esm(0, "e.mjs"), esm(1, "mid1.mjs")
+	e.locals = []localExport{v2("own")}
+	mid.locals = []localExport{v2("fromMid1")}
+	leaf := &gmod{id: 2, kind: modCJS, path: "leaf.cjs", locals: []localExport{v2("fromLeaf")}}
+	e.stars = []int{1}
+	mid.stars = []int{2}
+	return finish(&ggraph{mods: []*gmod{e, mid, leaf}, shape: "known", rootType: "module", subType: "module", allowKnown: true})
+}
+
 func knownFindings(st *Stats) {
 	plain := buildCfg{"esm", "node", false}
 	for _, k := range []struct {
@@ -276,9 +288,11 @@ func knownFindings(st *Stats) {
 	}{{knownAliasGraph(), "known-alias-two-names-star-ambiguity", plain}, {knownStarCycleGraph(), "known-star-reexport-cycle-ambiguity", plain},
 		{knownExportlessGraph(), "known-import-from-exportless-module-accepted", plain},
 		{knownUnusedMissingGraph(), "known-minify-drops-unused-missing-import", buildCfg{"esm", "node", true}},
-		{knownStaleReexportGraph(), "known-star-cycle-commonjs-reexport-copied-too-early", plain}} {
+		{knownStaleReexportGraph(), "known-star-cycle-commonjs-reexport-copied-too-early", plain},
+		{knownEsmRuntimeStarGraph(), "known-esm-format-entry-loses-runtime-star-exports", plain}} {
 		desc := k.g.describe()
 		desc["scenario"] = k.scenario
+		delete(desc, "entry_dynamic_exports") // the recorded scenarios compare everything
 		outs := runJobs([]glueJob{{k.g.render(), "e.mjs", "e.mjs", true, []buildCfg{k.cfg}, desc, "known"}})
 		for _, o := range outs[0] {
 			if o.kind == "fail" {
